@@ -255,7 +255,7 @@ class _AuthMiddleware:
     guessed at from its message text.
     """
 
-    __slots__ = ("_authenticate", "_exempt_prefixes", "_on_auth_failure", "_www_authenticate")
+    __slots__ = ("_authenticate", "_exempt_paths", "_exempt_prefixes", "_on_auth_failure", "_www_authenticate")
 
     def __init__(
         self,
@@ -263,11 +263,19 @@ class _AuthMiddleware:
         www_authenticate: str | None = None,
         on_auth_failure: Callable[[str | None, str], None] | None = None,
         exempt_prefixes: tuple[str, ...] = (),
+        exempt_paths: tuple[str, ...] = (),
     ) -> None:
         self._authenticate = authenticate
         self._www_authenticate = www_authenticate
         self._on_auth_failure = on_auth_failure
+        # Two different tests on purpose.  ``exempt_paths`` are whole paths and
+        # must match exactly: the health endpoint is ``{prefix}/health`` and
+        # nothing else, so an RPC method that merely *starts* with "health"
+        # (``healthz``, ``health_check``, or ``health`` itself reached through
+        # ``{prefix}/health/init``) stays behind authentication.
+        # ``exempt_prefixes`` are directory-style prefixes ending in "/".
         self._exempt_prefixes = exempt_prefixes
+        self._exempt_paths = frozenset(exempt_paths)
 
     def process_request(self, req: falcon.Request, resp: falcon.Response) -> None:
         """Authenticate (if configured) and populate the transport contextvar.
@@ -287,6 +295,7 @@ class _AuthMiddleware:
         exempt = (
             req.method == "OPTIONS"
             or req.path.startswith("/.well-known/")
+            or req.path in self._exempt_paths
             or any(req.path.startswith(pfx) for pfx in self._exempt_prefixes)
         )
         if self._authenticate is None or exempt:
